@@ -28,6 +28,7 @@ func usesVirtual(p *Prog) bool {
 }
 
 func c01(c *Ctx) {
+	defer emitLargeCases(c, largeProgs("sum of", "32-bit", "MULQ", "ZMM", "loop with"))
 	rng := NewRNG(c.Seed)
 	n := 320
 	if c.Thorough() {
@@ -53,6 +54,7 @@ func c01(c *Ctx) {
 }
 
 func c03(c *Ctx) {
+	defer emitLargeCases(c, largeProgs("ZMM", "sum of", "MULQ"))
 	rng := NewRNG(c.Seed + 1000)
 	n := 320
 	if c.Thorough() {
@@ -79,6 +81,7 @@ func c10(c *Ctx) {
 	for len(progs) < n {
 		progs = append(progs, genCleanupProg(rng))
 	}
+	progs = append(progs, largeProgs("labels")...)
 	emitPipelineCases(c, progs, []pipeCheck{chkDiff, chkCleanup}, 20, func(p *Prog, ob *Observed) bool {
 		return ob.Stage == "" && len(ob.Nodes) != len(p.Nodes)
 	})
@@ -100,6 +103,7 @@ func c15(c *Ctx) {
 		every = 1
 	}
 	progs = append(progs, bpSweepProgs(c, every)...)
+	progs = append(progs, largeProgs("base pointer")...)
 	multiFunctionFiles(c.Out, progs, "bp", 60)
 	bpPrintedFrames(c.Out, progs, 200)
 	frameHistories(c, map[bool]int{false: 150, true: 3000}[c.Thorough()], 1501, true, "Frames.v") // base-pointer writers with stack locals
